@@ -25,7 +25,7 @@ SHARDS_PER_WORKER = {"quick": 1, "thorough": 4}
 
 
 def gen_cases(tier, seed):
-    n = 32 if tier == "quick" else 400
+    n = 60 if tier == "quick" else 400
     cases = []
     for i in range(n):
         cases.append({"id": f"cfg{i}", "backend": ["eager", "aot_eager"][i % 2], "dynamic": [False, True, None][(i // 2) % 3], "seed": [seed, i]})
